@@ -75,7 +75,7 @@ C("mako.runtime:Context._copy",
 C("mako.runtime:Context._locals",
   params={"self": "Context", "d": "Dict[Str,Any]"}, returns="Context",
   ensures=[("empty-means-self", "implies(not dict_nonempty(d), same(result, self))"),
-           ("updated", "implies(dict_nonempty(d), fresh(result) and result._data == dict_update(old(self._data), d))"),
+           ("updated", "implies(dict_nonempty(d), fresh(result) and fresh(result._data) and result._data == dict_update(old(self._data), d))"),
            ("shares-stacks", "same(result._buffer_stack, self._buffer_stack) and same(result.caller_stack, self.caller_stack)"),
            ("kwargs-shared", "same(result._kwargs, self._kwargs)"),
            ("same-render", "same(result._with_template, self._with_template) and same(result._outputting_as_unicode, self._outputting_as_unicode)"),
